@@ -166,9 +166,9 @@ func main() {
 	if c.Thorough {
 		slices_ = append(slices_,
 			&slice{name: "forests 0..6", cfg: memCfg(0, 6, 4, false), o: judgeOpts{v2txn: true, supp: true}},
-			&slice{name: "forests 7", cfg: memCfg(7, 7, 4, false), o: judgeOpts{supp: true}, thin: true},
-			&slice{name: "forests 8", cfg: memCfg(8, 8, 4, false), o: judgeOpts{supp: true}, thin: true},
-			&slice{name: "forests 9", cfg: memCfg(9, 9, 4, false), o: judgeOpts{supp: true}, thin: true})
+			&slice{name: "forests 7", cfg: memCfg(7, 7, 4, false), o: judgeOpts{supp: true, lean: true}, thin: true},
+			&slice{name: "forests 8", cfg: memCfg(8, 8, 4, false), o: judgeOpts{supp: true, lean: true}, thin: true},
+			&slice{name: "forests 9", cfg: memCfg(9, 9, 4, false), o: judgeOpts{supp: true, lean: true}, thin: true})
 	} else {
 		slices_ = append(slices_, &slice{name: "forests 0..5", cfg: memCfg(0, 5, 3, false), o: judgeOpts{supp: true}})
 	}
